@@ -56,11 +56,19 @@ func vpWarm(m SubstitutionMatrix, local bool) {
 	for key, v := range vpMatrixP("W", k, 8, -8, gapHi, vpCase("openLo"), vpCase("openHi")) {
 		m[key] = v
 	}
-	x := []byte{vpAlpha[0]}
+	// the warm-up alignments are as large as the one to come (anything kept
+	// from them - a cached table, a pooled DP buffer - is then reused) and
+	// run both functions
+	xa, xb := make([]byte, vpCase("n")), make([]byte, vpCase("m"))
+	for i := range xa {
+		xa[i] = vpAlpha[0]
+	}
+	for i := range xb {
+		xb[i] = vpAlpha[(i+1)%k]
+	}
+	Global(xa, xb, m)
 	if local {
-		Local(x, x, m)
-	} else {
-		Global(x, x, m)
+		Local(xb, xa, m)
 	}
 	for key, v := range final {
 		m[key] = v
